@@ -474,6 +474,73 @@ func c07(c *Ctx) {
 		}
 	})
 
+	c.Rule("C07.R5b", "sibling agreement: the two not-found branches of a merge site (new tag set under a known name / new name) build the new series identically", 12, func(r *Rule) {
+		for _, s := range sites {
+			// outer lookup: comma-ok lookup on the collection type map[string]map[string]T
+			var outerElse *ssa.BasicBlock
+			eachInstr(s.Fn, func(in ssa.Instruction) {
+				lk, ok := in.(*ssa.Lookup)
+				if !ok || !lk.CommaOk || lk == s.Lookup {
+					return
+				}
+				mt, ok := lk.X.Type().Underlying().(*types.Map)
+				if !ok {
+					return
+				}
+				inner, ok := mt.Elem().Underlying().(*types.Map)
+				if !ok || isAggType(inner.Elem()) != s.T {
+					return
+				}
+				for _, rf := range referrers(lk) {
+					if ex, ok := rf.(*ssa.Extract); ok && ex.Index == 1 {
+						for _, r2 := range referrers(ex) {
+							if ifi, ok := r2.(*ssa.If); ok && ifi.Block().Dominates(s.Lookup.Block()) {
+								outerElse = ifi.Block().Succs[1]
+							}
+						}
+					}
+				}
+			})
+			key := FuncName(s.Fn) + ":" + s.T + ":not-found-siblings"
+			if outerElse == nil {
+				r.Fail(key, s.Lookup.Pos(), "no enclosing comma-ok lookup of the metric name found; cannot identify the new-name branch")
+				continue
+			}
+			feat := func(head *ssa.BasicBlock, excl *ssa.BasicBlock) []string {
+				set := map[string]bool{}
+				eachInstr(s.Fn, func(in ssa.Instruction) {
+					b := in.Block()
+					if !inRegion(b, head) || (excl != nil && inRegion(b, excl)) {
+						return
+					}
+					switch x := in.(type) {
+					case *ssa.Store:
+						if t, f, _, ok := fieldRef(x.Addr); ok && t == s.T {
+							set["store "+f+" <- "+pathOf(x.Val)] = true
+						}
+					case *ssa.Call:
+						if cal := staticCallee(x); cal != nil && cal.Name() == "New"+s.T {
+							var as []string
+							for _, a := range x.Call.Args {
+								as = append(as, pathOf(a))
+							}
+							set["call New"+s.T+"("+strings.Join(as, ",")+")"] = true
+						}
+					}
+				})
+				var out []string
+				for k := range set {
+					out = append(out, k)
+				}
+				sort.Strings(out)
+				return out
+			}
+			a := feat(s.ElseBlk, s.FoundBlk)
+			b := feat(outerElse, nil)
+			r.Check(key, strings.Join(a, ";") == strings.Join(b, ";"), s.Lookup.Pos(), fmt.Sprintf("new-tagset branch builds %v, new-name branch builds %v", a, b))
+		}
+	})
+
 	c.Rule("C07.R6", "four-type exhaustiveness: a function traversing >= 2 of Counters/Timers/Gauges/Sets of one MetricMap traverses all four", 15, func(r *Rule) {
 		fourTypeRule(c, r, nil)
 	})
